@@ -121,6 +121,8 @@ struct Env {
     ws: Ws,
     root: PathBuf,
     outside: PathBuf,
+    /// last mtime (ms) given to a user-written file
+    edit_clock: i64,
 }
 
 impl Env {
@@ -134,7 +136,22 @@ impl Env {
         std::fs::create_dir(&outside).unwrap();
         std::fs::create_dir(outside.join("x")).unwrap();
         std::fs::write(outside.join("x").join("z"), b"c1\n").unwrap();
-        Self { ws, root, outside }
+        Self { ws, root, outside, edit_clock: 0 }
+    }
+
+    /// The WorkingCopy model abstracts time away: every user edit is visible to the next
+    /// snapshot.  A real edit lands in a later millisecond than jj's own write of the file;
+    /// the harness is fast enough to hit the same millisecond, and then a state save by a
+    /// command that does not snapshot (check-out, set-sparse) moves own_mtime past the racy
+    /// edit.  That window is WcMtime's (C26) subject, so here every written file gets a
+    /// fresh, strictly increasing mtime.
+    fn stamp(&mut self, path: &Path) {
+        let now = std::time::SystemTime::now()
+            .duration_since(std::time::UNIX_EPOCH)
+            .map(|d| d.as_millis() as i64)
+            .unwrap_or(0);
+        self.edit_clock = std::cmp::max(now, self.edit_clock) + 3;
+        crate::common::set_mtime_ms(path, self.edit_clock).ok();
     }
 
     fn fs_path(&self, p: &[&str]) -> PathBuf {
@@ -189,9 +206,51 @@ impl Env {
         // not a plain model content: decode conflict markers with jj's parser
         // (that materialise/parse are inverse is C05's subject)
         if let Some(m) = decode_conflict(p, &bytes) {
-            return val("file", 0, x, "", m);
+            return val("file", label_id_in(&bytes), x, "", m);
+        }
+        if let Some(m) = self.decode_description(p, &bytes) {
+            return val("file", label_id_in(&bytes), x, "", m);
         }
         val("file", -1, x, "", vec![])
+    }
+
+    /// terms of the conflict a `MergedTreeValue::describe` text stands for ("Conflict:",
+    /// then the present removes, then the present adds, each with the id of the file or
+    /// symlink): the ids are mapped back through the store.  Only conflicts whose two adds
+    /// are both present are used by the model, so the positions are unambiguous.
+    fn decode_description(&self, p: &[&str], bytes: &[u8]) -> Option<Vec<i64>> {
+        let text = std::str::from_utf8(bytes).ok()?;
+        let mut lines = text.lines();
+        if lines.next()? != "Conflict:" {
+            return None;
+        }
+        let store = self.ws.store();
+        let rp = repo_path(p);
+        let mut known: Vec<(String, i64)> = vec![];
+        for c in 1..=2i64 {
+            let id = store.write_file(&rp, &mut content_bytes(p, c).as_slice()).block_on().ok()?;
+            known.push((format!("file with id {}", id.hex()), c));
+        }
+        let sid = store.write_symlink(&rp, "f").block_on().ok()?;
+        known.push((format!("symlink with id {}", sid.hex()), -1));
+        let (mut removes, mut adds) = (vec![], vec![]);
+        for line in lines {
+            let line = line.trim_start();
+            let (list, rest) = if let Some(r) = line.strip_prefix("Removing ") {
+                (&mut removes, r)
+            } else if let Some(r) = line.strip_prefix("Adding ") {
+                (&mut adds, r)
+            } else {
+                return None;
+            };
+            let rest = rest.strip_prefix("executable ").unwrap_or(rest);
+            let term = known.iter().find(|(k, _)| rest == k || rest.starts_with(&format!("{k} (")))?.1;
+            list.push(term);
+        }
+        if adds.len() != 2 || removes.len() > 1 {
+            return None;
+        }
+        Some(vec![adds[0], removes.first().copied().unwrap_or(0), adds[1]])
     }
 
     fn project_disk(&self) -> Vec<Value> {
@@ -326,10 +385,19 @@ fn project_tree_value(env: &Env, tree: &MergedTree, p: &[&str]) -> Value {
             .iter()
             .map(|t| {
                 let tvj = term_val(t);
-                if tvj["k"] == "file" { tvj["c"].as_i64().unwrap() } else if tvj["k"] == "absent" || tvj["k"] == "tree" { 0 } else { -2 }
+                if tvj["k"] == "file" {
+                    tvj["c"].as_i64().unwrap()
+                } else if tvj["k"] == "absent" || tvj["k"] == "tree" {
+                    0
+                } else if tvj["k"] == "symlink" && tvj["t"] == "f" {
+                    -1
+                } else {
+                    -2
+                }
             })
             .collect();
-        val("conflict", 0, false, "", m)
+        let l = label_id_in(tree.labels().as_slice().join("\n").as_bytes());
+        val("conflict", l, false, "", m)
     }
 }
 
@@ -365,8 +433,10 @@ fn build_tree(env: &Env, tree: &[Value]) -> Result<MergedTree, String> {
                 }
                 for (b, t) in builders.iter_mut().zip(m) {
                     let c = t.as_i64().unwrap();
-                    if c != 0 {
+                    if c > 0 {
                         b.file(&rp, content_bytes(p, c));
+                    } else if c == -1 {
+                        b.symlink(&rp, "f"); // a term that is a symlink
                     }
                 }
             }
@@ -377,8 +447,25 @@ fn build_tree(env: &Env, tree: &[Value]) -> Result<MergedTree, String> {
     Ok(if ids.len() == 1 {
         MergedTree::resolved(store, ids[0].clone())
     } else {
-        MergedTree::new(store, Merge::from_vec(ids), ConflictLabels::unlabeled())
+        // the label set of the tree is the one carried by its conflict values
+        let l = tree.iter().filter(|v| v["k"] == "conflict").map(|v| v["c"].as_i64().unwrap_or(0)).max().unwrap_or(0);
+        MergedTree::new(store, Merge::from_vec(ids), labels_for(l))
     })
+}
+
+/// conflict label sets of the model: id 1, 2 (0 = unlabelled)
+fn labels_for(l: i64) -> ConflictLabels {
+    if l == 0 {
+        ConflictLabels::unlabeled()
+    } else {
+        ConflictLabels::from_vec(vec![format!("L{l}-side1"), format!("L{l}-base"), format!("L{l}-side2")])
+    }
+}
+
+/// label set id embedded in a materialised conflict (marker file or description)
+fn label_id_in(bytes: &[u8]) -> i64 {
+    let has = |pat: &[u8]| bytes.windows(pat.len()).any(|w| w == pat);
+    if has(b"L1-") { 1 } else if has(b"L2-") { 2 } else { 0 }
 }
 
 fn stats_json(s: &CheckoutStats) -> Value {
@@ -400,6 +487,7 @@ fn exec_step(env: &mut Env, st: &Value) -> Result<Value, String> {
     match a {
         "Write" => {
             std::fs::write(&path, content_bytes(&p, st["c"].as_i64().ok_or("Write without c")?)).map_err(io)?;
+            env.stamp(&path);
             Ok(no_stats)
         }
         "Chmod" => {
@@ -450,6 +538,7 @@ fn exec_step(env: &mut Env, st: &Value) -> Result<Value, String> {
         "DirToFile" => {
             std::fs::remove_dir_all(&path).map_err(io)?;
             std::fs::write(&path, content_bytes(&p, st["c"].as_i64().ok_or("DirToFile without c")?)).map_err(io)?;
+            env.stamp(&path);
             Ok(no_stats)
         }
         "Snapshot" => {
@@ -645,7 +734,9 @@ fn random_tree(rng: &mut Rng, conflicts: bool) -> Vec<Value> {
             5 | 6 => val("file", rng.range(1, 2) as i64, false, "", vec![]),
             _ => {
                 let perms: [[i64; 3]; 6] = [[1, 0, 2], [2, 0, 1], [1, 2, 0], [0, 2, 1], [2, 1, 0], [0, 1, 2]];
-                val("conflict", 0, false, "", rng.pick(&perms).to_vec())
+                let nonfile: [[i64; 3]; 4] = [[1, 2, -1], [-1, 0, 2], [2, 0, -1], [-1, 1, 2]];
+                let m = if rng.chance(1, 3) { rng.pick(&nonfile).to_vec() } else { rng.pick(&perms).to_vec() };
+                val("conflict", 0, false, "", m)
             }
         }
     };
@@ -667,6 +758,13 @@ fn random_tree(rng: &mut Rng, conflicts: bool) -> Vec<Value> {
                     t[idx(p)] = leaf(rng, p, conflicts);
                 }
             }
+        }
+    }
+    // one label set per tree
+    let l = *rng.pick(&[0i64, 0, 1, 2]);
+    for v in &mut t {
+        if v["k"] == "conflict" {
+            v["c"] = json!(l);
         }
     }
     t
@@ -749,7 +847,18 @@ fn random_script(rng: &mut Rng, len: usize, focus: &str) -> Value {
         if r < jj_weight.0 + jj_weight.1 {
             let with_conflicts = focus != "snapshot" || rng.chance(1, 4);
             let t = random_tree(rng, with_conflicts);
-            steps.push(json!({"a":"CheckOut","tree":t}));
+            // often switch to the same tree under another conflict-label set right away
+            let relabel = t.iter().any(|v| v["k"] == "conflict") && rng.chance(1, 2);
+            steps.push(json!({"a":"CheckOut","tree":t.clone()}));
+            if relabel {
+                let mut t2 = t.clone();
+                for v in &mut t2 {
+                    if v["k"] == "conflict" {
+                        v["c"] = json!(v["c"].as_i64().unwrap_or(0) % 2 + 1);
+                    }
+                }
+                steps.push(json!({"a":"CheckOut","tree":t2}));
+            }
             continue;
         }
         if r < jj_weight.0 + jj_weight.1 + jj_weight.2 {
